@@ -81,6 +81,11 @@ fn jnum<T: std::fmt::Display>(n: T) -> String {
 struct Cx<'tcx> {
     tcx: TyCtxt<'tcx>,
     adts: BTreeMap<String, String>,
+    // external (core/alloc) callee instances whose MIR is available: dumped monomorphised so that the
+    // interpreter can inline e.g. Option::take, `?`, ok_or, map(closure) instead of needing a summary
+    ext: Vec<(ty::Instance<'tcx>, TypingEnv<'tcx>)>,
+    name_override: Option<String>,
+    env_override: Option<TypingEnv<'tcx>>,
 }
 
 impl<'tcx> Cx<'tcx> {
@@ -327,6 +332,10 @@ impl<'tcx> Cx<'tcx> {
                     _ => "other",
                 };
                 kv.push(("ikind", jstr(ik)));
+                if is_item && !rd.is_local() && tcx.is_mir_available(rd) {
+                    kv.push(("ext_key", jstr(&format!("{:?}", inst))));
+                    self.ext.push((inst, env));
+                }
             }
         }
         kv
@@ -350,6 +359,29 @@ impl<'tcx> Cx<'tcx> {
                 kv.push(("int", jstr(&format!("{}", sv))));
             } else {
                 kv.push(("int", jstr(&format!("{}", bits))));
+            }
+        }
+        if let ty::Adt(adef, _) = t.kind() {
+            // constant of an enum / struct type (e.g. `const Option::<usize>::None` in optimised std MIR): variant and scalar fields
+            if let Ok(val) = c.const_.eval(tcx, env, c.span) {
+                if let Some(d) = tcx.try_destructure_mir_constant_for_user_output(val, t) {
+                    if adef.is_enum() {
+                        if let Some(v) = d.variant {
+                            kv.push(("variant", jnum(v.as_u32())));
+                        }
+                    }
+                    let mut fs = vec![];
+                    for (fv, fty) in d.fields.iter() {
+                        let mut fk: Vec<(&str, String)> = vec![("ty", self.ty(*fty))];
+                        if let Some(si) = fv.try_to_scalar_int() {
+                            let size = si.size();
+                            fk.push(("bits", jstr(&format!("{}", si.to_bits(size)))));
+                            fk.push(("size", jnum(size.bytes())));
+                        }
+                        fs.push(jobj(fk));
+                    }
+                    kv.push(("fields", jarr(fs)));
+                }
             }
         }
         // source of the constant (named const item?)
@@ -509,7 +541,7 @@ impl<'tcx> Cx<'tcx> {
 
     fn body(&mut self, did: DefId, body: &Body<'tcx>, promoted: Option<u32>) -> String {
         let tcx = self.tcx;
-        let env = TypingEnv::post_analysis(tcx, did);
+        let env = self.env_override.unwrap_or_else(|| TypingEnv::post_analysis(tcx, did));
         let mut locals = vec![];
         for (l, d) in body.local_decls.iter_enumerated() {
             locals.push(jobj(vec![
@@ -697,9 +729,10 @@ impl<'tcx> Cx<'tcx> {
         }
 
         let kind = tcx.def_kind(did);
-        let nm = match promoted {
-            Some(i) => format!("{}::promoted[{}]", self.path(did), i),
-            None => self.path(did),
+        let nm = match (&self.name_override, promoted) {
+            (Some(n), _) => n.clone(),
+            (None, Some(i)) => format!("{}::promoted[{}]", self.path(did), i),
+            (None, None) => self.path(did),
         };
         let mut kv: Vec<(&str, String)> = vec![
             ("name", jstr(&nm)),
@@ -838,7 +871,7 @@ impl<'tcx> rustc_hir::intravisit::Visitor<'tcx> for UnsafeCounter<'tcx> {
 }
 
 fn dump<'tcx>(tcx: TyCtxt<'tcx>, out_path: &str) {
-    let mut cx = Cx { tcx, adts: BTreeMap::new() };
+    let mut cx = Cx { tcx, adts: BTreeMap::new(), ext: vec![], name_override: None, env_override: None };
     let mut bodies = vec![];
     let mut nbodies = 0usize;
     for ld in tcx.mir_keys(()).iter() {
@@ -854,6 +887,35 @@ fn dump<'tcx>(tcx: TyCtxt<'tcx>, out_path: &str) {
             bodies.push(cx.body(did, pb, Some(pi.as_u32())));
         }
     }
+    // external callee instances, monomorphised, transitively (bounded: 5 rounds, 500 bodies, 80 blocks each)
+    let mut seen = std::collections::BTreeSet::new();
+    let mut ext_bodies = vec![];
+    let mut rounds = 0;
+    while !cx.ext.is_empty() && rounds < 5 && ext_bodies.len() < 500 {
+        rounds += 1;
+        let work: Vec<_> = std::mem::take(&mut cx.ext);
+        for (inst, env) in work {
+            let key = format!("{:?}", inst);
+            if !seen.insert(key.clone()) {
+                continue;
+            }
+            let body = tcx.instance_mir(inst.def);
+            if body.basic_blocks.len() > 80 {
+                continue;
+            }
+            let mono = match inst.try_instantiate_mir_and_normalize_erasing_regions(tcx, env, ty::EarlyBinder::bind(body.clone())) {
+                Ok(b) => b,
+                Err(_) => continue,
+            };
+            cx.name_override = Some(key);
+            cx.env_override = Some(env);
+            let j = cx.body(inst.def_id(), &mono, None);
+            cx.name_override = None;
+            cx.env_override = None;
+            ext_bodies.push(j);
+        }
+    }
+    cx.ext.clear();
     // items / census
     let mut items = vec![];
     let mut unsafe_impls = vec![];
@@ -908,6 +970,7 @@ fn dump<'tcx>(tcx: TyCtxt<'tcx>, out_path: &str) {
         ("rustc", jstr(option_env!("CFG_VERSION").unwrap_or("nightly"))),
         ("n_bodies", jnum(nbodies)),
         ("bodies", jarr(bodies)),
+        ("ext_bodies", jarr(ext_bodies)),
         ("adts", jarr(adts)),
         ("consts", consts),
         ("items", jarr(items)),
